@@ -210,6 +210,9 @@ func filterOpsByVersionTime(ops []*operation.AnchoredOperation, timeStr string) 
 
 func (s *OperationProcessor) applyResolutionOptions(uniqueSuffix string, published, unpublished []*operation.AnchoredOperation,
 	opts document.ResolutionOptions) ([]*operation.AnchoredOperation, []*operation.AnchoredOperation, []*operation.AnchoredOperation, error) {
+	// work on a copy: the slice belongs to the operation store, and it is appended to and sorted in place below
+	published = append([]*operation.AnchoredOperation(nil), published...)
+
 	canonicalIds := getCanonicalMap(published)
 
 	for _, op := range opts.AdditionalOperations {
